@@ -81,7 +81,12 @@ theorem scan_eq_fresh_of_inv (hinj : Function.Injective P.hash)
 swaps, exclusion changes, allowed cache replacements, truncations, removals of the cache
 directory or marker files, and scans - starting from an arbitrary tree without cache - the
 report of a scan that uses the on-disk cache equals the report of a from-scratch scan of the
-same tree.  (Every prefix of a history is a history, so this covers every scan inside it.) -/
+same tree.  (Every prefix of a history is a history, so this covers every scan inside it:
+`observe_reports_fresh`.)  "Allowed" (`Op.Allowed`, Spec/Cache.lean) restricts ONE operation
+only: a cache file put in place from outside may be absent, junk, a document of ANOTHER version
+with arbitrary altered entries, or an honest document of the current version - not a forged
+document of the current version (Appendix A; `allowed_needed` shows that the restriction cannot
+be dropped). -/
 theorem scan_eq_fresh (hinj : Function.Injective P.hash)
     (fs : List (Path × Content)) (e : Excl)
     (ops : List (Op Path Content Hash Entry Excl Version))
@@ -89,36 +94,91 @@ theorem scan_eq_fresh (hinj : Function.Injective P.hash)
     (scan P (run P (init fs e) ops)).2 = fresh P (run P (init fs e) ops) :=
   scan_eq_fresh_of_inv P hinj _ (inv_run P _ ops hops (inv_init P fs e))
 
-/-- The same for every scan recorded along a history (`observe`): each recorded report is the
-fresh report of the state in which that scan ran.  Stated via the reports only. -/
+/-- what `observe` records for a history that is cut in two: the records of the first part,
+then the records of the second part started in the state the first part leads to -/
+theorem observe_append (s : State Path Content Hash Entry Excl Version)
+    (pre post : List (Op Path Content Hash Entry Excl Version)) :
+    observe P s (pre ++ post) = observe P s pre ++ observe P (run P s pre) post := by
+  induction pre generalizing s with
+  | nil => rfl
+  | cons op pre ih =>
+    cases op <;> simp only [List.cons_append, observe, run, List.foldl_cons, step] <;>
+      first
+        | exact ih _
+        | (congr 1; exact ih _)
+
+/-- `observe` records one entry per scan of the history -/
+theorem observe_length (s : State Path Content Hash Entry Excl Version)
+    (ops : List (Op Path Content Hash Entry Excl Version)) :
+    (observe P s ops).length = (ops.filter Op.isScan).length := by
+  induction ops generalizing s with
+  | nil => rfl
+  | cons op ops ih =>
+    cases op <;> simp [observe, Op.isScan, List.filter_cons, ih]
+
+/-- **the `k`-th record of a history is the `k`-th scan, run in the state the history had reached
+then** (no hypothesis): if `pre` is what happened before the `k`-th scan of `ops`, the record
+holds the report, the reused and the analysed paths of `scan` in the state `run P s pre`. -/
+theorem observe_getElem (s : State Path Content Hash Entry Excl Version)
+    (pre post : List (Op Path Content Hash Entry Excl Version)) :
+    (observe P s (pre ++ .scan :: post))[(pre.filter Op.isScan).length]? =
+      some ((scan P (run P s pre)).2, (reusedFiles P (run P s pre)).map (·.1),
+        (analysedFiles P (run P s pre)).map (·.1), (scan P (run P s pre)).1.dir) := by
+  rw [observe_append, ← observe_length P s pre, List.getElem?_append_right (Nat.le_refl _)]
+  simp [observe]
+
+/-- **C09.1, for every scan inside a history**: the report recorded for the `k`-th scan of a
+history of allowed operations is the from-scratch report OF THE STATE IN WHICH THAT SCAN RAN
+(`run P s pre`, where `pre` is the part of the history before that scan), and that scan ran in a
+state satisfying the invariant.  (Before the audit this theorem only said "the fresh report of
+SOME invariant state".) -/
 theorem observe_reports_fresh (hinj : Function.Injective P.hash)
     (s : State Path Content Hash Entry Excl Version)
     (ops : List (Op Path Content Hash Entry Excl Version))
-    (hops : ∀ op ∈ ops, Op.Allowed P op) (h : Inv P s) :
-    ∀ o ∈ observe P s ops, HonestRows P o.1 ∧
-      ∃ s' : State Path Content Hash Entry Excl Version, Inv P s' ∧ o.1 = fresh P s' := by
+    (hops : ∀ op ∈ ops, Op.Allowed P op) (h : Inv P s)
+    (pre post : List (Op Path Content Hash Entry Excl Version)) (hsplit : ops = pre ++ .scan :: post) :
+    ((observe P s ops)[(pre.filter Op.isScan).length]?).map (·.1) = some (fresh P (run P s pre)) ∧
+    Inv P (run P s pre) ∧ HonestRows P (fresh P (run P s pre)) := by
+  subst hsplit
+  have hpre : ∀ op ∈ pre, Op.Allowed P op := fun op ho => hops op (List.mem_append_left _ ho)
+  have hinv := inv_run P s pre hpre h
+  rw [observe_getElem, Option.map_some]
+  exact ⟨congrArg some (scan_eq_fresh_of_inv P hinj _ hinv), hinv, fresh_honest P _⟩
+
+/-- every record of `observe` is the record of some scan of the history: the records are
+exactly the scans, in order (`observe_length`, `observe_getElem`), so the statement above speaks
+about ALL of them -/
+theorem observe_mem (s : State Path Content Hash Entry Excl Version)
+    (ops : List (Op Path Content Hash Entry Excl Version))
+    (o : Report Path Hash Entry × List Path × List Path × DirState) (ho : o ∈ observe P s ops) :
+    ∃ pre post, ops = pre ++ .scan :: post ∧
+      o = ((scan P (run P s pre)).2, (reusedFiles P (run P s pre)).map (·.1),
+        (analysedFiles P (run P s pre)).map (·.1), (scan P (run P s pre)).1.dir) := by
   induction ops generalizing s with
-  | nil => intro o ho; simp [observe] at ho
+  | nil => simp [observe] at ho
   | cons op ops ih =>
-    have hrest := fun o ho => hops o (List.mem_cons_of_mem _ ho)
-    have hstep := inv_step P s op (hops op List.mem_cons_self) h
+    have hrec : o ∈ observe P (step P s op) ops → ∃ pre post, op :: ops = pre ++ .scan :: post ∧
+        o = ((scan P (run P s pre)).2, (reusedFiles P (run P s pre)).map (·.1),
+          (analysedFiles P (run P s pre)).map (·.1), (scan P (run P s pre)).1.dir) := by
+      intro ho'
+      obtain ⟨pre, post, rfl, he⟩ := ih _ ho'
+      exact ⟨op :: pre, post, rfl, he⟩
     cases op with
     | scan =>
-      intro o ho
       simp only [observe, List.mem_cons] at ho
       rcases ho with rfl | ho
-      · exact ⟨report_honest P h, s, h, report_eq_fresh_of_inv P hinj h⟩
-      · exact ih _ hrest hstep o ho
-    | write p c => exact fun o ho => ih _ hrest hstep o (by simpa [observe] using ho)
-    | delete p => exact fun o ho => ih _ hrest hstep o (by simpa [observe] using ho)
-    | rename a b => exact fun o ho => ih _ hrest hstep o (by simpa [observe] using ho)
-    | touch p => exact fun o ho => ih _ hrest hstep o (by simpa [observe] using ho)
-    | swap a b => exact fun o ho => ih _ hrest hstep o (by simpa [observe] using ho)
-    | setExcl e => exact fun o ho => ih _ hrest hstep o (by simpa [observe] using ho)
-    | replaceCache c => exact fun o ho => ih _ hrest hstep o (by simpa [observe] using ho)
-    | truncate w => exact fun o ho => ih _ hrest hstep o (by simpa [observe] using ho)
-    | removeCacheDir => exact fun o ho => ih _ hrest hstep o (by simpa [observe] using ho)
-    | removeMarkers => exact fun o ho => ih _ hrest hstep o (by simpa [observe] using ho)
+      · exact ⟨[], ops, rfl, rfl⟩
+      · exact hrec ho
+    | write p c => exact hrec (by simpa [observe] using ho)
+    | delete p => exact hrec (by simpa [observe] using ho)
+    | rename a b => exact hrec (by simpa [observe] using ho)
+    | touch p => exact hrec (by simpa [observe] using ho)
+    | swap a b => exact hrec (by simpa [observe] using ho)
+    | setExcl e => exact hrec (by simpa [observe] using ho)
+    | replaceCache c => exact hrec (by simpa [observe] using ho)
+    | truncate w => exact hrec (by simpa [observe] using ho)
+    | removeCacheDir => exact hrec (by simpa [observe] using ho)
+    | removeMarkers => exact hrec (by simpa [observe] using ho)
 
 /-! ## C09.2 when a cached entry is reused -/
 
@@ -140,7 +200,8 @@ theorem reuse_only_if_unchanged (s : State Path Content Hash Entry Excl Version)
 
 /-- **C09.2b** In a reachable state (invariant) with a collision-free checksum, the reused entry
 is the analysis of the file's current content: the content has not changed since the entry was
-computed. -/
+computed.  (The last conjunct restates the hypothesis `hinj` at the file's content - "no other
+content has this checksum" -; the conclusions with content are the first two.) -/
 theorem reused_entry_is_current_analysis (hinj : Function.Injective P.hash)
     (s : State Path Content Hash Entry Excl Version) (h : Inv P s)
     (f : Path × Content) (hf : f ∈ reusedFiles P s) :
@@ -208,7 +269,11 @@ theorem fsWF_step (s : State Path Content Hash Entry Excl Version)
 /-! ## C09.3 `report` and `findings` refuse a report of another version -/
 
 /-- **C09.3** `read_report` answers "version mismatch" (exit code 1) for a report document iff
-its version differs from the tool's; a document of the tool's version is shown. -/
+its version differs from the tool's; a document of the tool's version is shown.
+(Definitional at this level: `readReport` IS this `if`.  The content of the clause is that the
+real `read_report` computes the version it compares from the BYTES of the file and refuses:
+`Gaps.read_report_abstract`, `Gaps.read_report_written`, `Gaps.foreign_version_refused_written`,
+plus the correspondence run on the real function.) -/
 theorem foreign_version_refused (v : Version) (es : List (Path × Hash × Entry)) :
     (readReport P (.doc v es) = .refuse ↔ v ≠ P.cur) ∧
     (readReport P (.doc v es) = .shown es ↔ v = P.cur) := by
@@ -250,14 +315,47 @@ example :
         ([(0, 0, 0), (1, 1, 11)], [], [0, 1], .present true) ] := by
   refine ⟨Or.inr (Or.inr (Or.inl ⟨2, _, rfl, by decide⟩)), by decide⟩
 
-/-- the side condition is needed: the same altered entry under the CURRENT version (not allowed,
-and indistinguishable from an honest cache) would be reused and taint the report -/
+/-- **the side condition `Op.Allowed` is needed** (`scan_eq_fresh`, `inv_run`,
+`C10.faults_interleaved_harmless` are false without it): a history with one operation that is not
+allowed - putting a document of the CURRENT version with an altered entry (999 under a matching
+path and checksum) in place of the cache - after which the scan reuses the altered entry and its
+report differs from the fresh one.  Such a file is indistinguishable from an honest cache
+(Appendix A: "altered entries" is read together with "another version"); the same holds of the
+code (`Pipe.Ex.forged_cache_taints`, `C09sel.matching_entry_is_reused_unchecked`). -/
+theorem allowed_needed :
+    ∃ (fs : List (Nat × Nat)) (ops : List (Op Nat Nat Nat Nat (List Nat) Nat)),
+      ¬ (∀ op ∈ ops, Op.Allowed exP op) ∧
+      (scan exP (run exP (init fs []) ops)).2 ≠ fresh exP (run exP (init fs []) ops) ∧
+      ¬ Inv exP (run exP (init fs []) ops) := by
+  refine ⟨[(0, 0), (1, 1)], [.scan, .replaceCache (.doc 1 [(0, 0, 999), (1, 1, 11)])], ?_, by decide, ?_⟩
+  · intro h
+    rcases h _ (List.mem_cons_of_mem _ List.mem_cons_self) with h | ⟨k, h⟩ | ⟨v, es, h, hv⟩ | ⟨es, h, hes⟩
+    · cases h
+    · cases h
+    · cases h; exact hv rfl
+    · cases h
+      obtain ⟨c, h1, h2⟩ := hes (0, 0, 999) List.mem_cons_self
+      simp only [exP, id] at h1 h2
+      omega
+  · intro h
+    have := scan_eq_fresh_of_inv exP exP_injective _ h
+    revert this
+    decide
+
+/-- what that scan reports: the altered entry, where the fresh scan has the analysis -/
 example :
     let forged : CacheFile Nat Nat Nat Nat := .doc 1 [(0, 0, 999), (1, 1, 11)]
     (scan exP (run exP (init [(0, 0), (1, 1)] []) [.scan, .replaceCache forged])).2
       = [(0, 0, 999), (1, 1, 11)] ∧
     fresh exP (run exP (init [(0, 0), (1, 1)] []) [.scan, .replaceCache forged])
       = [(0, 0, 0), (1, 1, 11)] := by decide
+
+/-- `observe_reports_fresh` on a concrete history: the second record (`k = 1`, `pre` = scan,
+write) is the fresh report of the state after `pre` -/
+example :
+    ((observe exP (init [(0, 0), (1, 1)] []) [.scan, .write 0 1, .scan, .delete 1, .scan])[1]?).map (·.1) =
+      some (fresh exP (run exP (init [(0, 0), (1, 1)] []) [.scan, .write 0 1])) ∧
+    fresh exP (run exP (init [(0, 0), (1, 1)] []) [.scan, .write 0 1]) = [(0, 1, 1), (1, 1, 11)] := by decide
 
 /-- exclusions and renames: a renamed file is analysed under its new path (the cached entry of
 the old path is not used), an excluded file drops out and comes back reused -/
